@@ -655,12 +655,22 @@ fn independent_to_real(seed: u64, i: u64, base: &str) -> ReplyStats {
         let id = rand_wid(&mut rng, base, small);
         digest.insert(cid(&id), WDigestEntry { id, heartbeat: rng.random(), last_gc: rng.random_range(0..10), max_version: if rng.random_bool(0.1) { u64::MAX } else { rng.random_range(0..100) } });
     }
+    // one case in twelve: a digest of minimal entries only (empty node id, IPv4 address, distinct by generation and port)
+    // followed by nothing or next to nothing (SYN-ACK with an empty delta, SYN with a tiny cluster id)
+    let minimal = i % 12 == 5;
+    if minimal {
+        digest.clear();
+        for j in 0..rng.random_range(1..40u64) {
+            let id = WId { node_id: String::new(), generation: j, addr: addr(1000 + j as u16) };
+            digest.insert(cid(&id), WDigestEntry { id, heartbeat: j, last_gc: 0, max_version: j });
+        }
+    }
     let mut dvec: Vec<WDigestEntry> = digest.values().cloned().collect();
     dvec.shuffle(&mut rng);
     // ops: valid per the documented grouping rules
     let mut ops = vec![];
     let mut seen = std::collections::HashSet::new();
-    let n_nodes = rng.random_range(0..5);
+    let n_nodes = if minimal { 0 } else { rng.random_range(0..5) };
     let mut budget: usize = 200_000;
     for _ in 0..n_nodes {
         let small = rng.random_bool(0.8);
@@ -687,7 +697,7 @@ fn independent_to_real(seed: u64, i: u64, base: &str) -> ReplyStats {
     }
     let kind = rng.random_range(0..4);
     let w = match kind {
-        0 => WMsg::Syn { cluster_id: { let l = len_class(&mut rng); rand_string(&mut rng, l, base) }, digest: dvec.clone() },
+        0 => WMsg::Syn { cluster_id: if minimal { "c".to_string() } else { let l = len_class(&mut rng); rand_string(&mut rng, l, base) }, digest: dvec.clone() },
         1 => WMsg::SynAck { digest: dvec.clone(), ops: ops.clone() },
         2 => WMsg::Ack { ops: ops.clone() },
         _ => WMsg::BadCluster,
